@@ -113,29 +113,37 @@ def Enforcement.allows : Enforcement → Str → Bool
   | .none, _ => false
   | .only ns, n => ns.contains n
 
-/-- the configured tool choice, as the property names its forms -/
+/-- the configured tool choice (the JSON value of `tool_choice`), as far as enforcement reads it -/
 inductive ToolChoice
   | auto | required | noneChoice
-  | function (name : Str)
-  | allowedTools (modeNone : Bool) (names : List Str)
+  | function (name : Option Str)                                   -- {"type":"function","name":…}
+  | allowedTools (modeNone : Bool) (tools : List (Bool × Option Str)) -- entries: (type = "function", name)
+  | other                                                           -- any other string / object type / JSON value
   deriving Repr, DecidableEq
+
+def functionNames (tools : List (Bool × Option Str)) : List Str :=
+  tools.filterMap (fun e => if e.1 then e.2.filter (· != 0) else none)
 
 def ToolChoice.enforcement : ToolChoice → Enforcement
   | .auto => .all
   | .required => .all
+  | .other => .all
   | .noneChoice => .none
-  | .function n => .only (if n == 0 then [] else [n])
+  | .function n => .only (match n.filter (· != 0) with | some n => [n] | none => [])
   | .allowedTools true _ => .none
-  | .allowedTools false ns => .only (ns.filter (· != 0))
+  | .allowedTools false ts => .only (functionNames ts)
 
-/-- what the tool choice EXCLUDES (the specification, stated separately from `allows`) -/
+/-- what the tool choice EXCLUDES (the specification, stated separately from `allows`):
+`none` bars everything; a named function bars every other name; an allowed-tools list bars every
+name that is not one of its function entries (and everything when its mode is none) -/
 def Excluded : ToolChoice → Str → Prop
   | .auto, _ => False
   | .required, _ => False
+  | .other, _ => False
   | .noneChoice, _ => True
-  | .function n, m => m ≠ n
+  | .function n, m => n ≠ some m
   | .allowedTools true _, _ => True
-  | .allowedTools false ns, m => m ∉ ns
+  | .allowedTools false ts, m => (true, some m) ∉ ts
 
 /-! ### the loop -/
 
@@ -211,7 +219,7 @@ def loop (cfg : Config) : List Response → LoopSt → Outcome
     let mk : Option Request :=
       match st.followup with
       | some outs =>
-        if cfg.stateless then some { hasPrev := false, input := st.history ++ msgItems cfg }
+        if cfg.stateless then some { hasPrev := false, input := st.history }
         else if st.havePrev then some { hasPrev := true, input := outs ++ msgItems cfg } else none
       | none => some { hasPrev := false, input := [.user] }
     match mk with
@@ -232,8 +240,10 @@ def loop (cfg : Config) : List Response → LoopSt → Outcome
           if hit then finish { st with rounds := st.rounds ++ [round] } "max_tool_calls_exceeded"
           else
             let outs := ans.map Item.foutput
+            -- stateless: the follow-up user message joins the accumulated history (after the repair;
+            -- before it, the message was appended to the request only and vanished from later requests)
             loop cfg rs { followup := some outs, havePrev := havePrev, count := cnt,
-                          history := if cfg.stateless then history ++ outs else history,
+                          history := if cfg.stateless then history ++ outs ++ msgItems cfg else history,
                           rounds := st.rounds ++ [round] }
 
 def agentLoop (cfg : Config) (rs : List Response) : Outcome := loop cfg rs {}
